@@ -250,7 +250,7 @@ def verifyAnyM (k : Keys) (c : RCfg) (blockQC : QC) (agg : Option AggQC) : M (VR
       | .panic => return .panic
       | .reject => return .reject
       | .ok high =>
-        if !blockQC.equals high then return .reject
+        if !(blockQC.view == high.view && blockQC.hash == high.hash) then return .reject   -- `fix:` 7d9bd97
         if ← verifyQCM k c blockQC then return .ok () else return .reject
   | none => if ← verifyQCM k c blockQC then return .ok () else return .reject
 
@@ -507,7 +507,14 @@ def verifySyncInfo (k : Keys) (c : RCfg) (si : SyncInfo) : M (VRes (Option QC ×
             view := a.view
             timeout := true
           return .ok (some high, view, timeout)
-    | none => return .ok (none, view, timeout)
+    | none =>
+      -- `fix:` 4f3d40f — a plain QC does not end the view under this rule, but it is verified and
+      -- reported as high QC
+      match si.qc with
+      | some qc =>
+        if !(← verifyQCM k c qc) then return .reject
+        return .ok (some qc, view, timeout)
+      | none => return .ok (none, view, timeout)
   else
     match si.qc with
     | some qc =>
